@@ -310,15 +310,34 @@ func sanitizeFile(s string) string {
 }
 
 // DischargeAll runs obligations on a worker pool.
+// MaxFailures: once this many obligations have failed, the remaining ones are not attempted (status "skipped");
+// the check has already decided "violation" and every further failure would cost a full solver timeout.
+var MaxFailures = 6
+
 func DischargeAll(obls []*Obligation, dir string, timeoutS, seed, workers int, all bool) {
 	var wg sync.WaitGroup
+	var mu sync.Mutex
+	failures := 0
 	ch := make(chan *Obligation)
 	for w := 0; w < workers; w++ {
 		wg.Add(1)
 		go func() {
 			defer wg.Done()
 			for o := range ch {
+				mu.Lock()
+				stop := MaxFailures > 0 && failures >= MaxFailures
+				mu.Unlock()
+				if stop {
+					o.Status = "skipped"
+					continue
+				}
 				Discharge(o, dir, timeoutS, seed, all)
+				ok := (!o.Vacuity && o.Status == "unsat") || (o.Vacuity && o.Status == "sat")
+				if !ok {
+					mu.Lock()
+					failures++
+					mu.Unlock()
+				}
 			}
 		}()
 	}
